@@ -2,6 +2,7 @@ import Tmv.Lemmas.MConn
 import Tmv.Model.PeerMsgs
 import Tmv.Lemmas.PeerState
 import Tmv.Model.ReactorMsgs
+import Tmv.Props.C16
 /-! # C17 — channel messages arrive intact and in order; bad peer input only drops the peer
 
 Model: `Tmv.Model.MConn` (p2p/conn/connection.go) and `Tmv.Model.PeerMsgs` (consensus message
@@ -429,5 +430,183 @@ theorem peers_do_not_mix {α : Type} (decode : Bytes → α) (arrivals : List (N
       rw [ih]
     · simp only [List.map_cons, List.filter_cons, h, decide_false] at ih ⊢
       exact ih
+
+/-! ## the fairness `fair_pick_transmits` assumes: the least-ratio choice of `sendPacketMsg` -/
+
+/-- `sendPacketMsg` chooses, among the channels with something to send, the first one with the
+least `recentlySent / priority` (`pickLeast`) and then charges it the bytes written. This rule is
+FAIR with a computable bound: a channel `c` that stays pending is chosen within
+`waitBound c chans + 1` send steps — `waitBound` = Σ over the other channels `x` of
+`c.recentlySent * x.prio / c.prio + 1 - x.recentlySent` — whatever the other channels have pending
+(`s.1`, arbitrary per step) and however many bytes each packet takes (`s.2 ≥ 1`). Stated for one
+stats window: `updateStats` (every 2 s, `recentlySent *= 0.8` on all channels, `decay`) is not a
+step here; it lowers every ratio, so a window boundary can lengthen the wait by at most another
+window's bound, and since `c.recentlySent` only shrinks under decay while a passed-over channel's
+grows with every choice there is NO starvation schedule. Model assumption: ratios compared exactly
+(the code compares float32 quotients; the sender stream checks on every run that the real choice
+is the model's `pickLeast`). -/
+theorem least_ratio_is_fair (c : PCh) (steps : List ((Nat → Bool) × Nat)) (chans : List PCh)
+    (hc : c ∈ chans) (hprio : ∀ x ∈ chans, 0 < x.prio)
+    (hst : ∀ s ∈ steps, s.1 c.id = true ∧ 1 ≤ s.2)
+    (hlong : waitBound c chans < steps.length) :
+    some c.id ∈ picks chans steps := by
+  by_cases h : some c.id ∈ picks chans steps
+  · exact h
+  · have := bounded_wait c steps chans hc hprio hst h
+    omega
+
+/-- what `pickLeast` returns is pending and no pending channel has a strictly smaller ratio -/
+theorem pickLeast_is_least (pending : List PCh) (hp : ∀ x ∈ pending, 0 < x.prio) (d : PCh)
+    (h : pickLeast pending = some d) : d ∈ pending ∧ ∀ x ∈ pending, ¬ better x d = true :=
+  pickLeast_spec' pending hp d h
+
+/-- non-vacuity: channel 3 (priority 1, 40 bytes sent) against two busy channels of priority 5
+and 10: bound 40*5/1+1-0 + 40*10/1+1-0 = 602 steps of one byte each; it is chosen at once when
+the others have sent more in proportion -/
+example :
+    waitBound ⟨3, 1, 40⟩ [⟨1, 5, 0⟩, ⟨2, 10, 0⟩, ⟨3, 1, 40⟩] = 602 ∧
+    pickLeast [⟨1, 5, 300⟩, ⟨2, 10, 500⟩, ⟨3, 1, 40⟩] = some ⟨3, 1, 40⟩ ∧
+    pickLeast [⟨1, 5, 100⟩, ⟨2, 10, 200⟩, ⟨3, 1, 40⟩] = some ⟨1, 5, 100⟩ := by decide
+
+/-! ## C16 × C17: an MConnection running over a SecretConnection -/
+
+section secure_link
+open Tmv.SecretFrames
+variable (enc : Nat → Bytes → Bytes) (dec : Nat → Bytes → Option Bytes) (junk : Nat → Bytes)
+variable (encF : PacketMsg → Bytes) (splitF : Bytes → Option (PacketMsg × Bytes))
+
+/-- Messages sent on the channels of an MConnection that runs OVER a SecretConnection arrive in
+order, unmodified, at most once — or a forgery of the AEAD is exhibited. The sending MConnection
+(any interleaving of TrySends and send-routine steps, `ops`) writes the frames of its packets;
+the SecretConnection seals those bytes in chunks `cs` from counter `c` (C16). The receiving side
+reads, with ANY read schedule `rs`, from a network that delivers an ARBITRARY byte string `net`
+(cut, edited, reordered, replayed — the attacker of C16's `tamper_never_alters`), parses the bytes
+it was handed into frames and runs the receive loop. Then the loop is not stopped by anything it
+was handed and, per channel, what it delivered is a PREFIX of the accepted messages. (What is
+missing at the end is the link failing: C16's `tamper_detected` says the reader gets an error at
+the first affected frame, which `recvRoutine` turns into `stopForError`.) -/
+theorem secure_link_in_order_or_fails (hc : Correct enc dec) (hf : Framing encF splitF)
+    (mx : Nat) (hmx : 0 < mx) (ds : List Desc) (hnd : (ds.map (·.id)).Nodup)
+    (hbyte : ∀ d ∈ ds, d.id ≤ 255) (ops : List SOp)
+    (hcap : ∀ d ∈ ds, ∀ m ∈ delivered d.id (runOps (Sender.new mx ds) {} ops).2.acc,
+      m.length ≤ d.fillDefaults.recvMessageCapacity)
+    (c : Nat) (cs : List Bytes)
+    (hcs : cs.flatten = (runOps (Sender.new mx ds) {} ops).2.wire.flatMap encF)
+    (hb : ∀ ch ∈ cs, ch.length ≤ dataMaxSize) (net : Bytes) (rs : List Nat) :
+    (∃ frames, frames = parseFrames splitF ((okBytes (runReads dec ⟨[], c, net⟩ rs).1).length + 1)
+        (okBytes (runReads dec ⟨[], c, net⟩ rs).1) ∧
+      (recvAll (Receiver.new mx ds) (msgFrames (fun p => packetSize p.chId.toNat p.eof p.data.length) frames)).1.stopped = none ∧
+      ∀ d ∈ ds, ∃ more,
+        delivered d.id (runOps (Sender.new mx ds) {} ops).2.acc =
+          delivered d.id (recvAll (Receiver.new mx ds) (msgFrames (fun p => packetSize p.chId.toNat p.eof p.data.length) frames)).2 ++ more) ∨
+    Nonempty (Forgery dec (sealFrom enc junk c cs)) := by
+  rcases Tmv.Props.C16.tamper_never_alters enc dec junk hc c cs hb net rs with hpre | hforge
+  · left
+    rw [hcs] at hpre
+    obtain ⟨rest, hrest⟩ := parse_prefix encF splitF hf _ _ _ (Nat.lt_succ_self _) hpre
+    refine ⟨_, rfl, ?_⟩
+    exact prefix_delivery mx hmx ds hnd hbyte ops _ rest hrest hcap
+  · exact Or.inr hforge
+
+/-- …and exactly once when the link is undisturbed: the SecretConnection `Write`s `ws` carry the
+MConnection's frames, the wire is what the sender sealed, the reader reads with positive sizes
+until everything is out (C16 `stream_roundtrip`), the sender is idle: the receive loop delivered,
+per channel, exactly the accepted messages in order. -/
+theorem secure_link_exactly_once (hc : Correct enc dec) (hl : LenOK enc) (hf : Framing encF splitF)
+    (mx : Nat) (hmx : 0 < mx) (ds : List Desc) (hnd : (ds.map (·.id)).Nodup)
+    (hbyte : ∀ d ∈ ds, d.id ≤ 255) (ops : List SOp)
+    (hidle : idle (runOps (Sender.new mx ds) {} ops).1)
+    (hcap : ∀ d ∈ ds, ∀ m ∈ delivered d.id (runOps (Sender.new mx ds) {} ops).2.acc,
+      m.length ≤ d.fillDefaults.recvMessageCapacity)
+    (c : Nat) (ws : List Bytes)
+    (hws : ws.flatten = (runOps (Sender.new mx ds) {} ops).2.wire.flatMap encF)
+    (hroom : c + ws.flatten.length ≤ maxU64)
+    (rs : List Nat) (hpos : ∀ k ∈ rs, 0 < k) (hlong : ws.flatten.length < rs.length) :
+    let got := okBytes (runReads dec ⟨[], c, wireOf (writeAll enc junk c (ws.map (·, true))).2⟩ rs).1
+    let frames := parseFrames splitF (got.length + 1) got
+    (recvAll (Receiver.new mx ds) (msgFrames (fun p => packetSize p.chId.toNat p.eof p.data.length) frames)).1.stopped = none ∧
+    ∀ d ∈ ds,
+      delivered d.id (recvAll (Receiver.new mx ds) (msgFrames (fun p => packetSize p.chId.toNat p.eof p.data.length) frames)).2 =
+        delivered d.id (runOps (Sender.new mx ds) {} ops).2.acc := by
+  have h := (Tmv.Props.C16.stream_roundtrip enc dec junk hc hl c ws rs hroom).2.2.2 hpos hlong
+  simp only at h ⊢
+  rw [h, hws, parse_full encF splitF hf _ _ (Nat.lt_succ_self _)]
+  exact end_to_end mx hmx ds hnd hbyte ops hidle hcap
+
+end secure_link
+
+/-- non-vacuity of the composition's hypotheses: a concrete frame codec satisfies `Framing`
+(unary length prefix + payload), C16's toy AEAD satisfies `Correct`/`LenOK`, and two frames
+written back to back parse back -/
+example : Framing toyEncF toySplitF ∧
+    Tmv.SecretFrames.Correct Tmv.Props.C16.toyEnc Tmv.Props.C16.toyDec ∧
+    parseFrames toySplitF 3 (toyEncF ⟨1, false, [7, 8]⟩ ++ toyEncF ⟨2, true, []⟩) =
+      [⟨1, false, [7, 8]⟩, ⟨2, true, []⟩] :=
+  ⟨toy_framing, by intro n m; simp [Tmv.Props.C16.toyEnc, Tmv.Props.C16.toyDec], by decide⟩
+
+/-! ## `Receive`'s decision in the remaining reactors: total, and when the peer is dropped -/
+
+open Tmv.ReactorMsgs in
+/-- every input of the evidence / mempool (v0, v1) / pex / blockchain-BlockResponse `Receive` —
+undecodable bytes, a wrapper without a kind, or any decoded message in any modelled context —
+yields exactly one of accept / ignore / stop / recovered-panic; bytes that do not give a message
+always end in the connection's recover, never in the reactor's logic -/
+theorem receive_decision_total (d : Decoded) (k : Decision) :
+    (decodeGate d k = .accept ∨ decodeGate d k = .ignore ∨ decodeGate d k = .stop ∨
+      decodeGate d k = .recovered) ∧
+    (d ≠ .msg → decodeGate d k = .recovered) ∧ (d = .msg → decodeGate d k = k) := by
+  cases d <;> cases k <;> simp [decodeGate]
+
+open Tmv.ReactorMsgs in
+/-- evidence: the peer is stopped iff some item does not convert, fails `ValidateBasic` or is
+rejected by the pool as INVALID; an item the pool refuses for another reason (committed, pending)
+never costs the peer its connection -/
+theorem evidence_stop_iff (items : List EvItem) :
+    evidenceDecide items = .stop ↔
+      (.convErr ∈ items ∨ .vbErr ∈ items ∨ .addInvalid ∈ items) := by
+  unfold evidenceDecide
+  have e : ∀ a : EvItem, (items.any (· == a) = true) ↔ a ∈ items := by
+    intro a; simp [List.any_eq_true]
+  by_cases h1 : EvItem.convErr ∈ items
+  · simp [(e _).mpr h1, h1]
+  · have g1 : ¬ (items.any (· == EvItem.convErr) = true) := fun h => h1 ((e _).mp h)
+    by_cases h2 : EvItem.vbErr ∈ items
+    · simp [g1, (e _).mpr h2, h2]
+    · have g2 : ¬ (items.any (· == EvItem.vbErr) = true) := fun h => h2 ((e _).mp h)
+      by_cases h3 : EvItem.addInvalid ∈ items
+      · simp [g1, g2, (e _).mpr h3, h3]
+      · have g3 : ¬ (items.any (· == EvItem.addInvalid) = true) := fun h => h3 ((e _).mp h)
+        simp only [g1, g2, g3, if_false, h1, h2, h3, or_self, iff_false]
+        split
+        · rename_i hh; cases hh
+        · split <;> simp
+
+open Tmv.ReactorMsgs in
+/-- mempool v0/v1: no Txs message — empty, with oversized transactions, with a full pool, with
+duplicates, however many — makes the reactor drop the peer -/
+theorem mempool_never_stops (txs : List TxClass) :
+    mempoolDecide txs ≠ .stop ∧ mempoolDecide txs ≠ .recovered ∧
+    (mempoolDecide txs = .ignore ↔ txs = []) := by
+  unfold mempoolDecide
+  cases txs <;> simp
+
+open Tmv.ReactorMsgs in
+/-- pex: an address list is accepted only if every address converts, the list was asked for and
+the sender's own address parses; a seed serves an inbound peer once and disconnects it -/
+theorem pex_decisions (c : PexCtx) (conv srcOk : Bool) :
+    (pexAddrsDecide c conv srcOk = .accept ↔ (conv = true ∧ c.solicited = true ∧ srcOk = true)) ∧
+    (c.seedMode = true → c.peerOutbound = false → c.marker = 0 → (pexRequestDecide c).1 = .stop) ∧
+    (c.seedMode = true → c.peerOutbound = false → c.marker ≠ 0 → (pexRequestDecide c).1 = .ignore) := by
+  refine ⟨?_, ?_, ?_⟩
+  · unfold pexAddrsDecide
+    cases conv <;> cases srcOk <;> cases hs : c.solicited <;> simp [hs]
+  · intro h1 h2 h3; simp [pexRequestDecide, h1, h2, h3]
+  · intro h1 h2 h3; simp [pexRequestDecide, h1, h2, h3]
+
+open Tmv.ReactorMsgs in
+/-- blockchain: a BlockResponse whose block does not convert stops the sender, one that converts
+does not -/
+theorem blockResponse_stop_iff (ok : Bool) : blockResponseDecide ok = .stop ↔ ok = false := by
+  cases ok <;> simp [blockResponseDecide]
 
 end Tmv.Props.C17
